@@ -37,7 +37,9 @@ import (
 //              (a unary handler has no stream: only h and c act)
 //     reply    unary reply payload (hex), code = status code the handler returns at the end (0 = OK)
 //     imode    p = pass through | j<code> = return the code without calling the handler | o<code> = call the
-//              handler, then return the code
+//              handler, then return the code | r<hex> = call the handler and, if it succeeds, return this message
+//              instead of its reply | k<hex> = return this message without calling the handler (r, k: unary
+//              interceptor; the stream interceptor passes through)
 //     icpt, stats  1 | 0                (options installed)
 //   ; valid panic calls ev hlog dlv iret hs gs body  bpanic bhlog bdlv bhs bgs bbody
 //     valid    oracle: proto.Unmarshal accepts the i-th request payload
@@ -63,6 +65,7 @@ type c18Env struct {
 	code int
 	imk  byte
 	imc  int
+	imsg []byte // imode r / k: the message the interceptor returns as its own
 
 	cancel context.CancelFunc
 	calls  []string
@@ -152,6 +155,17 @@ func (e *c18Env) unaryIcpt(ctx context.Context, req interface{}, info *grpc.Unar
 	case 'o':
 		h(ctx, req) //nolint
 		return nil, c18MkErr(e.imc)
+	case 'r', 'k':
+		if e.imk == 'r' {
+			if _, err := h(ctx, req); err != nil {
+				return nil, err
+			}
+		}
+		own := dynamicpb.NewMessage(e.in) // every C18 method answers with the request's message type
+		if err := proto.Unmarshal(e.imsg, own); err != nil {
+			panic("c18: interceptor payload is not a message: " + err.Error())
+		}
+		return own, nil
 	}
 	return h(ctx, req)
 }
@@ -332,6 +346,7 @@ type c18Case struct {
 	code          int
 	imk           byte
 	imc           int
+	imsg          []byte
 	icpt, statsOn bool
 	ns            string // name space of the service: "c18" (local handlers, default) or "c18p" (proxied)
 }
@@ -352,11 +367,20 @@ func c18Parse(input string) c18Case {
 			c.acts = append(c.acts, act)
 		}
 	}
-	c.imk = f[10][0]
-	if c.imk != 'p' {
-		c.imc = atoi(f[10][1:])
-	}
+	c.imk, c.imc, c.imsg = c18ParseMode(f[10])
 	return c
+}
+
+// imode: p | j<code> | o<code> | r<hex> | k<hex>
+func c18ParseMode(s string) (k byte, code int, msg []byte) {
+	k = s[0]
+	switch k {
+	case 'j', 'o':
+		code = atoi(s[1:])
+	case 'r', 'k':
+		msg = unhx(s[1:])
+	}
+	return
 }
 
 func (c c18Case) request() (*http.Request, context.CancelFunc) {
@@ -421,7 +445,7 @@ func c18Join(xs []string) string {
 }
 
 func c18Exec(e *c18Env, c c18Case, icpt, statsOn bool) c18Obs {
-	e.acts, e.hk, e.repl, e.code, e.imk, e.imc = c.acts, c.hk, c.reply, c.code, c.imk, c.imc
+	e.acts, e.hk, e.repl, e.code, e.imk, e.imc, e.imsg = c.acts, c.hk, c.reply, c.code, c.imk, c.imc, c.imsg
 	e.calls, e.ev, e.hlog, e.dlv, e.iret = nil, nil, nil, nil, "-"
 	r, cancel := c.request()
 	e.cancel = cancel
@@ -515,8 +539,11 @@ func c18Line(c c18Case) string {
 		}
 	}
 	im := "p"
-	if c.imk != 'p' {
+	switch c.imk {
+	case 'j', 'o':
 		im = fmt.Sprintf("%c%d", c.imk, c.imc)
+	case 'r', 'k':
+		im = string(c.imk) + hx(c.imsg)
 	}
 	return fmt.Sprintf("C18 %s %s %d %d %s %s %s %s %d %s %d %d", c.proto, c.shape, b2i(c.routed), b2i(c.rbody), hxs(c.reqs), c.hk, c18Join(acts),
 		hx(c.reply), c.code, im, b2i(c.icpt), b2i(c.statsOn))
@@ -639,12 +666,29 @@ func c18Gen(o *out, r *rng, tier string) {
 			if c.hk == "S" && r.intn(3) == 0 {
 				c.imc = 0
 			}
+		case x == 2:
+			c.imk, c.imsg = 'r', c18Payload(r.pick([]int{0, 2, 3, 7, 40, 131}), r)
+		case x == 3:
+			c.imk, c.imsg = 'k', c18Payload(r.pick([]int{0, 2, 3, 7, 40, 131}), r)
 		}
 		tag := "random"
 		if malformed {
 			tag = "random-malformed"
 		}
 		run(c, tag)
+	}
+	// 3a. a unary interceptor that answers with a message of its own, on every protocol, handler succeeding / failing
+	for _, p := range protos {
+		for _, mk := range []byte{'r', 'k'} {
+			for _, n := range []int{0, 3, 64} {
+				for _, code := range []int{0, 5} {
+					for _, st := range []bool{false, true} {
+						run(c18Case{proto: p, shape: "u", routed: true, rbody: true, reqs: [][]byte{c18Payload(3, r)}, hk: "U", reply: c18Payload(9, r), code: code,
+							imk: mk, imsg: c18Payload(n, r), icpt: true, statsOn: st}, "interceptor-own-reply")
+					}
+				}
+			}
+		}
 	}
 	// 3. an interceptor that returns (nil, nil) for a unary method makes larking call SendMsg(nil)
 	for _, p := range protos {
